@@ -122,8 +122,8 @@ Lemma distinct_nth l : distinct l ->
 Proof.
   intros Hd i j a b Hij Ha Hb.
   destruct (Nat.lt_ge_cases i j) as [Hlt | Hge].
-  - eapply distinct_lt; eauto.
-  - rewrite seteq_sym. eapply distinct_lt; eauto. lia.
+  - apply (distinct_lt l Hd i j a b); assumption.
+  - rewrite seteq_sym. apply (distinct_lt l Hd j i b a); [lia | exact Hb | exact Ha].
 Qed.
 
 Lemma oset_add_cases s g :
@@ -184,3 +184,507 @@ Definition index (G : list (list nat)) := combine (seq 0 (length G)) G.
 
 Lemma pass_eq G : pass G = fold_left (step1 (index G)) (index G) (false, []).
 Proof. reflexivity. Qed.
+
+(* ---- inner fold: one group g1 (at position i) against a list L of indexed groups ---- *)
+Section Inner.
+  Variables (i : nat) (g1 : list nat) (fl0 : bool) (ng0 : list (list nat)).
+
+  Definition hit (L : list (nat * list nat)) (j : nat) (g2 : list nat) : Prop :=
+    In (j, g2) L /\ j <> i /\ meets g1 g2.
+
+  Record inner_spec (L : list (nat * list nat)) (r : bool * list (list nat) * bool) : Prop := {
+    is_ins_t : snd r = true -> exists j g2, hit L j g2;
+    is_ins_f : snd r = false -> forall j g2, ~ hit L j g2;
+    is_from : forall h, In h (snd (fst r)) -> In h ng0 \/ exists j g2, hit L j g2 /\ h = union g1 g2;
+    is_has : forall j g2, hit L j g2 -> exists h, In h (snd (fst r)) /\ seteq (union g1 g2) h = true;
+    is_incl : incl ng0 (snd (fst r));
+    is_dist : distinct ng0 -> distinct (snd (fst r));
+    is_fl_t : fst (fst r) = true -> fl0 = true \/ snd r = true;
+    is_fl_mono : fl0 = true -> fst (fst r) = true;
+    is_fl_f : fst (fst r) = false ->
+              snd (fst r) = ng0 /\
+              forall j g2, hit L j g2 -> exists h, In h ng0 /\ seteq (union g1 g2) h = true
+  }.
+
+  Lemma hit_app_l L x j g2 : hit L j g2 -> hit (L ++ [x]) j g2.
+  Proof. intros [H1 H2]. split; auto. apply in_app_iff. left. exact H1. Qed.
+
+  Lemma hit_app_inv L j0 g0 j g2 :
+    hit (L ++ [(j0, g0)]) j g2 -> hit L j g2 \/ (j = j0 /\ g2 = g0 /\ j0 <> i /\ meets g1 g0).
+  Proof.
+    intros [H1 [H2 H3]]. apply in_app_iff in H1. destruct H1 as [H1 | [H1 | []]].
+    - left. split; auto.
+    - injection H1 as <- <-. right. auto.
+  Qed.
+
+  Lemma inner_ok L : inner_spec L (fold_left (step2 i g1) L (fl0, ng0, false)).
+  Proof.
+    induction L as [| [j0 g0] L IH] using rev_ind.
+    - simpl. constructor; simpl.
+      + discriminate.
+      + intros _ j g2 [[] _].
+      + intros h H. left. exact H.
+      + intros j g2 [[] _].
+      + apply incl_refl.
+      + intros H. exact H.
+      + intros H. left. exact H.
+      + intros H. exact H.
+      + intros _. split; auto. intros j g2 [[] _].
+    - rewrite fold_left_app. simpl.
+      destruct (fold_left (step2 i g1) L (fl0, ng0, false)) as [[fl ng] ins].
+      destruct IH as [Ht Hf Hfrom Hhas Hincl Hdist Hflt Hmono Hflf]. simpl in *.
+      destruct (Nat.eqb i j0) eqn:Eij.
+      { (* same position: skipped *)
+        apply Nat.eqb_eq in Eij. subst j0.
+        assert (Hinv : forall j g2, hit (L ++ [(i, g0)]) j g2 -> hit L j g2).
+        { intros j g2 H. destruct (hit_app_inv _ _ _ _ _ H) as [H' | [_ [_ [H' _]]]]; auto.
+          exfalso. apply H'. reflexivity. }
+        constructor; simpl.
+        - intros H. destruct (Ht H) as [j [g2 H']]. exists j, g2. apply hit_app_l. exact H'.
+        - intros H j g2 H'. apply (Hf H j g2). apply Hinv. exact H'.
+        - intros h H. destruct (Hfrom h H) as [H' | [j [g2 [H1 H2]]]]; auto.
+          right. exists j, g2. split; auto. apply hit_app_l. exact H1.
+        - intros j g2 H. apply (Hhas j g2). apply Hinv. exact H.
+        - exact Hincl.
+        - exact Hdist.
+        - exact Hflt.
+        - exact Hmono.
+        - intros H. destruct (Hflf H) as [H1 H2]. split; auto.
+          intros j g2 H'. apply (H2 j g2). apply Hinv. exact H'. }
+      apply Nat.eqb_neq in Eij.
+      destruct (inter_nonempty g1 g0) eqn:Em.
+      2:{ (* disjoint: skipped *)
+        apply inter_not_meets in Em.
+        assert (Hinv : forall j g2, hit (L ++ [(j0, g0)]) j g2 -> hit L j g2).
+        { intros j g2 H. destruct (hit_app_inv _ _ _ _ _ H) as [H' | [_ [_ [_ H']]]]; auto.
+          exfalso. apply Em. exact H'. }
+        constructor; simpl.
+        - intros H. destruct (Ht H) as [j [g2 H']]. exists j, g2. apply hit_app_l. exact H'.
+        - intros H j g2 H'. apply (Hf H j g2). apply Hinv. exact H'.
+        - intros h H. destruct (Hfrom h H) as [H' | [j [g2 [H1 H2]]]]; auto.
+          right. exists j, g2. split; auto. apply hit_app_l. exact H1.
+        - intros j g2 H. apply (Hhas j g2). apply Hinv. exact H.
+        - exact Hincl.
+        - exact Hdist.
+        - exact Hflt.
+        - exact Hmono.
+        - intros H. destruct (Hflf H) as [H1 H2]. split; auto.
+          intros j g2 H'. apply (H2 j g2). apply Hinv. exact H'. }
+      (* a union is offered to the ordered set *)
+      apply inter_meets in Em.
+      assert (Hnew : hit (L ++ [(j0, g0)]) j0 g0).
+      { split; [apply in_app_iff; right; left; reflexivity | split; auto]. }
+      { constructor; simpl.
+      - intros _. exists j0, g0. exact Hnew.
+      - discriminate.
+      - intros h H. apply oset_add_In in H. destruct H as [H | H].
+        + destruct (Hfrom h H) as [H' | [j [g2 [H1 H2]]]]; auto.
+          right. exists j, g2. split; auto. apply hit_app_l. exact H1.
+        + right. exists j0, g0. split; auto.
+      - intros j g2 H. destruct (hit_app_inv _ _ _ _ _ H) as [H' | [-> [-> _]]].
+        + destruct (Hhas j g2 H') as [h [H1 H2]]. exists h. split; auto.
+          apply oset_add_incl. exact H1.
+        + apply oset_add_has.
+      - intros h H. apply oset_add_incl. apply Hincl. exact H.
+      - intros H. apply oset_add_distinct. apply Hdist. exact H.
+      - intros _. right. reflexivity.
+      - intros H. rewrite (Hmono H). reflexivity.
+      - intros H. apply orb_false_iff in H. destruct H as [Hfl Hlen].
+        destruct (Hflf Hfl) as [Hng Hrep]. subst ng.
+        destruct (oset_add_cases ng0 (union g1 g0)) as [[Heq [h [Hh1 Hh2]]] | [Heq _]].
+        + rewrite Heq. split; auto.
+          intros j g2 H'. destruct (hit_app_inv _ _ _ _ _ H') as [H'' | [-> [-> _]]].
+          * apply (Hrep j g2). exact H''.
+          * exists h. split; auto.
+        + exfalso. rewrite Heq in Hlen. rewrite app_length in Hlen. simpl in Hlen.
+          apply Nat.ltb_ge in Hlen. lia. }
+  Qed.
+End Inner.
+
+(* ---- outer fold ---- *)
+Section Outer.
+  Variable FULL : list (nat * list nat).
+
+  Definition iso (i : nat) (g1 : list nat) : Prop :=
+    forall j g2, In (j, g2) FULL -> j <> i -> ~ meets g1 g2.
+
+  Record outer_spec (L : list (nat * list nat)) (r : bool * list (list nat)) : Prop := {
+    os_from : forall h, In h (snd r) ->
+       (exists i g1 j g2, In (i, g1) L /\ In (j, g2) FULL /\ j <> i /\ meets g1 g2 /\ h = union g1 g2) \/
+       (exists i, In (i, h) L /\ iso i h);
+    os_union : forall i g1 j g2, In (i, g1) L -> In (j, g2) FULL -> j <> i -> meets g1 g2 ->
+       exists h, In h (snd r) /\ seteq (union g1 g2) h = true;
+    os_iso : forall i g1, In (i, g1) L -> iso i g1 -> exists h, In h (snd r) /\ seteq g1 h = true;
+    os_dist : distinct (snd r);
+    os_fl_t : fst r = true ->
+       exists i g1 j g2, In (i, g1) L /\ In (j, g2) FULL /\ j <> i /\ meets g1 g2;
+    os_fl_f : fst r = false ->
+       (forall i g1, In (i, g1) L -> iso i g1) /\ (forall h, In h (snd r) -> exists i, In (i, h) L)
+  }.
+
+  Lemma NoDup_snoc_inv (A : Type) (l : list A) (a : A) : NoDup (l ++ [a]) -> NoDup l /\ ~ In a l.
+  Proof.
+    intros H. split.
+    - apply NoDup_remove_1 in H. rewrite app_nil_r in H. exact H.
+    - apply NoDup_remove_2 in H. rewrite app_nil_r in H. exact H.
+  Qed.
+
+  Lemma outer_ok L : NoDup (map fst L) -> incl L FULL ->
+    outer_spec L (fold_left (step1 FULL) L (false, [])).
+  Proof.
+    induction L as [| [i g1] L IH] using rev_ind; intros Hnd Hincl.
+    - simpl. constructor; simpl.
+      + intros h [].
+      + intros i g1 j g2 [].
+      + intros i g1 [].
+      + exact I.
+      + discriminate.
+      + intros _. split; [intros i g1 [] | intros h []].
+    - rewrite map_app in Hnd. simpl in Hnd. apply NoDup_snoc_inv in Hnd. destruct Hnd as [Hnd Hfresh].
+      assert (HinclL : incl L FULL).
+      { intros x Hx. apply Hincl. apply in_app_iff. left. exact Hx. }
+      assert (HiF : In (i, g1) FULL).
+      { apply Hincl. apply in_app_iff. right. left. reflexivity. }
+      specialize (IH Hnd HinclL).
+      rewrite fold_left_app. simpl.
+      destruct (fold_left (step1 FULL) L (false, [])) as [flag0 ng0].
+      destruct IH as [Ofrom Ounion Oiso Odist Oflt Oflf]. simpl in *.
+      pose proof (inner_ok i g1 flag0 ng0 FULL) as HI.
+      destruct (fold_left (step2 i g1) FULL (flag0, ng0, false)) as [[fl ng] ins].
+      destruct HI as [It If Ifrom Ihas Iincl Idist Iflt Imono Iflf]. simpl in *.
+      assert (Hlift : forall k g, In (k, g) L -> In (k, g) (L ++ [(i, g1)])).
+      { intros k g H. apply in_app_iff. left. exact H. }
+      assert (Hlast : In (i, g1) (L ++ [(i, g1)])).
+      { apply in_app_iff. right. left. reflexivity. }
+      assert (Hres : incl ng (if ins then ng else oset_add ng g1)).
+      { destruct ins; [apply incl_refl | apply oset_add_incl]. }
+      assert (Hng : forall h, In h ng ->
+         (exists i' g1' j g2, In (i', g1') (L ++ [(i, g1)]) /\ In (j, g2) FULL /\ j <> i' /\ meets g1' g2 /\ h = union g1' g2) \/
+         (exists i', In (i', h) (L ++ [(i, g1)]) /\ iso i' h)).
+      { intros h H. destruct (Ifrom h H) as [H0 | [j [g2 [[H1 [H2 H3]] H4]]]].
+        - destruct (Ofrom h H0) as [[i' [g1' [j [g2 [H1 H2]]]]] | [i' [H1 H2]]].
+          + left. exists i', g1', j, g2. split; auto.
+          + right. exists i'. split; auto.
+        - left. exists i, g1, j, g2. auto. }
+      constructor; simpl.
+      + (* os_from *)
+        destruct ins.
+        * exact Hng.
+        * intros h H. apply oset_add_In in H. destruct H as [H | ->].
+          -- apply Hng. exact H.
+          -- right. exists i. split; auto.
+             intros j g2 H1 H2 H3. apply (If eq_refl j g2). split; auto.
+      + (* os_union *)
+        intros i' g1' j g2 H1 H2 H3 H4. apply in_app_iff in H1. destruct H1 as [H1 | [H1 | []]].
+        * destruct (Ounion i' g1' j g2 H1 H2 H3 H4) as [h [Hh1 Hh2]].
+          exists h. split; auto.
+        * injection H1 as <- <-.
+          destruct (Ihas j g2) as [h [Hh1 Hh2]]; [split; auto |].
+          exists h. split; auto.
+      + (* os_iso *)
+        intros i' g1' H1 H2. apply in_app_iff in H1. destruct H1 as [H1 | [H1 | []]].
+        * destruct (Oiso i' g1' H1 H2) as [h [Hh1 Hh2]]. exists h. split; auto.
+        * injection H1 as <- <-. destruct ins.
+          -- exfalso. destruct (It eq_refl) as [j [g2 [Hj1 [Hj2 Hj3]]]].
+             exact (H2 j g2 Hj1 Hj2 Hj3).
+          -- apply oset_add_has.
+      + (* os_dist *)
+        destruct ins; [auto | apply oset_add_distinct; auto].
+      + (* os_fl_t *)
+        intros H. destruct (Iflt H) as [H0 | H0].
+        * destruct (Oflt H0) as [i' [g1' [j [g2 [H1 H2]]]]]. exists i', g1', j, g2. split; auto.
+        * destruct (It H0) as [j [g2 [Hj1 [Hj2 Hj3]]]]. exists i, g1, j, g2. auto.
+      + (* os_fl_f *)
+        intros H.
+        assert (Hfl0 : flag0 = false).
+        { destruct flag0; auto. rewrite (Imono eq_refl) in H. discriminate. }
+        destruct (Oflf Hfl0) as [HisoL Hsrc].
+        destruct (Iflf H) as [Heq Hrep]. subst ng.
+        assert (Hnohit : forall j g2, ~ hit i g1 FULL j g2).
+        { intros j g2 Hhit. destruct (Hrep j g2 Hhit) as [h [Hh1 Hh2]].
+          destruct (Hsrc h Hh1) as [k Hk].
+          destruct Hhit as [_ [_ [x [Hx1 Hx2]]]].
+          apply seteq_spec in Hh2. destruct Hh2 as [Hsub _].
+          apply (HisoL k h Hk i g1 HiF).
+          - intros ->. apply Hfresh. apply in_map_iff. exists (k, h). split; auto.
+          - exists x. split; auto. apply Hsub. apply union_In. left. exact Hx1. }
+        destruct ins.
+        { exfalso. destruct (It eq_refl) as [j [g2 Hhit]]. exact (Hnohit j g2 Hhit). }
+        split.
+        * intros i' g1' H1. apply in_app_iff in H1. destruct H1 as [H1 | [H1 | []]].
+          -- apply HisoL. exact H1.
+          -- injection H1 as <- <-. intros j g2 H1 H2 H3. apply (Hnohit j g2). split; auto.
+        * intros h Hh. apply oset_add_In in Hh. destruct Hh as [Hh | ->].
+          -- destruct (Hsrc h Hh) as [k Hk]. exists k. auto.
+          -- exists i. exact Hlast.
+  Qed.
+End Outer.
+
+(* ------------------------------------------------------------------ *)
+(* 4. extensional specification of [pass] in terms of positions        *)
+(* ------------------------------------------------------------------ *)
+
+Lemma in_combine_seq (G : list (list nat)) : forall s i g,
+  In (i, g) (combine (seq s (length G)) G) <-> s <= i /\ nth_error G (i - s) = Some g.
+Proof.
+  induction G as [| g0 G IH]; intros s i g; simpl.
+  - split; [intros [] | intros [_ H]; destruct (i - s); discriminate].
+  - rewrite IH. split.
+    + intros [H | [H1 H2]].
+      * injection H as <- <-. split; [lia |]. rewrite Nat.sub_diag. reflexivity.
+      * split; [lia |]. replace (i - s) with (S (i - S s)) by lia. exact H2.
+    + intros [H1 H2]. destruct (Nat.eq_dec s i) as [-> | Hne].
+      * left. rewrite Nat.sub_diag in H2. simpl in H2. congruence.
+      * right. split; [lia |]. replace (i - s) with (S (i - S s)) in H2 by lia. exact H2.
+Qed.
+
+Lemma in_index G i g : In (i, g) (index G) <-> nth_error G i = Some g.
+Proof.
+  unfold index. rewrite in_combine_seq. rewrite Nat.sub_0_r. split; [intros [_ H]; exact H | intros H; split; [lia | exact H]].
+Qed.
+
+Lemma map_fst_combine_seq (G : list (list nat)) : forall s,
+  map fst (combine (seq s (length G)) G) = seq s (length G).
+Proof. induction G as [| g0 G IH]; intros s; simpl; [reflexivity | rewrite IH; reflexivity]. Qed.
+
+Lemma index_nodup G : NoDup (map fst (index G)).
+Proof. unfold index. rewrite map_fst_combine_seq. apply seq_NoDup. Qed.
+
+(* position-wise isolation *)
+Definition isolated (G : list (list nat)) (i : nat) (g : list nat) : Prop :=
+  forall j g2, nth_error G j = Some g2 -> j <> i -> ~ meets g g2.
+
+Definition pairwise_disjoint (G : list (list nat)) : Prop :=
+  forall i j gi gj, i <> j -> nth_error G i = Some gi -> nth_error G j = Some gj -> ~ meets gi gj.
+
+Record pass_spec (G : list (list nat)) (flag : bool) (G' : list (list nat)) : Prop := {
+  ps_from : forall h, In h G' ->
+     (exists i gi j gj, nth_error G i = Some gi /\ nth_error G j = Some gj /\ j <> i /\ meets gi gj /\ h = union gi gj) \/
+     (exists i, nth_error G i = Some h /\ isolated G i h);
+  ps_union : forall i gi j gj, nth_error G i = Some gi -> nth_error G j = Some gj -> j <> i -> meets gi gj ->
+     exists h, In h G' /\ seteq (union gi gj) h = true;
+  ps_iso : forall i gi, nth_error G i = Some gi -> isolated G i gi -> exists h, In h G' /\ seteq gi h = true;
+  ps_dist : distinct G';
+  ps_fl_t : flag = true ->
+     exists i gi j gj, nth_error G i = Some gi /\ nth_error G j = Some gj /\ j <> i /\ meets gi gj;
+  ps_fl_f : flag = false -> pairwise_disjoint G
+}.
+
+Lemma iso_isolated G i g : iso (index G) i g <-> isolated G i g.
+Proof.
+  unfold iso, isolated. split; intros H j g2 H1; apply H; apply in_index; exact H1.
+Qed.
+
+Lemma pass_ok G flag G' : pass G = (flag, G') -> pass_spec G flag G'.
+Proof.
+  rewrite pass_eq. intros Hp.
+  pose proof (outer_ok (index G) (index G) (index_nodup G) (incl_refl _)) as HO.
+  rewrite Hp in HO. destruct HO as [Ofrom Ounion Oiso Odist Oflt Oflf]. simpl in *.
+  constructor.
+  - intros h Hh. destruct (Ofrom h Hh) as [[i [g1 [j [g2 [H1 [H2 [H3 [H4 H5]]]]]]]] | [i [H1 H2]]].
+    + left. exists i, g1, j, g2. rewrite <- !in_index. auto.
+    + right. exists i. rewrite <- in_index, <- iso_isolated. auto.
+  - intros i gi j gj H1 H2 H3 H4. apply (Ounion i gi j gj); auto; apply in_index; auto.
+  - intros i gi H1 H2. apply (Oiso i gi); [apply in_index | apply iso_isolated]; auto.
+  - exact Odist.
+  - intros H. destruct (Oflt H) as [i [g1 [j [g2 [H1 [H2 [H3 H4]]]]]]].
+    exists i, g1, j, g2. rewrite <- !in_index. auto.
+  - intros H. destruct (Oflf H) as [Hiso _].
+    intros i j gi gj Hij Hi Hj. apply in_index in Hi. apply in_index in Hj.
+    apply (Hiso i gi Hi j gj Hj). intros ->. apply Hij. reflexivity.
+Qed.
+
+(* ------------------------------------------------------------------ *)
+(* 5. the insertion-ordered dictionary models2merge                    *)
+(* ------------------------------------------------------------------ *)
+
+Definition keys (d : list (nat * list nat)) : list nat := map fst d.
+
+Fixpoint get (d : list (nat * list nat)) (k : nat) : list nat :=
+  match d with
+  | [] => []
+  | (k', v) :: r => if Nat.eqb k' k then v else get r k
+  end.
+
+Definition addv (x : nat) (v : list nat) : list nat := if mem x v then v else v ++ [x].
+
+Lemma addv_In x v c : In c (addv x v) <-> In c v \/ c = x.
+Proof.
+  unfold addv. destruct (mem x v) eqn:E.
+  - apply mem_In in E. split; [auto | intros [H | ->]; auto].
+  - rewrite in_app_iff. simpl. split; [intros [H | [H | []]]; auto | intros [H | ->]; auto].
+Qed.
+
+Lemma addv_NoDup x v : NoDup v -> NoDup (addv x v).
+Proof.
+  unfold addv. intros H. destruct (mem x v) eqn:E; auto.
+  apply mem_false in E. apply NoDup_app_disj; auto.
+  - constructor; [intros [] | constructor].
+  - intros y Hy [<- | []]. exact (E Hy).
+Qed.
+
+Lemma keys_add_edge d a b :
+  keys (add_edge d a b) = if mem a (keys d) then keys d else keys d ++ [a].
+Proof.
+  unfold keys. induction d as [| [k v] r IH]; simpl; auto.
+  destruct (Nat.eqb_spec k a) as [-> | Hne]; simpl.
+  - rewrite Nat.eqb_refl. reflexivity.
+  - destruct (Nat.eqb_spec a k) as [-> | _]; [congruence |]. simpl.
+    rewrite IH. fold (mem a (map fst r)). destruct (mem a (map fst r)); reflexivity.
+Qed.
+
+Lemma get_add_edge d a b k :
+  get (add_edge d a b) k = if Nat.eqb k a then addv b (get d a) else get d k.
+Proof.
+  induction d as [| [k' v] r IH]; simpl.
+  - rewrite (Nat.eqb_sym a k). destruct (Nat.eqb k a); reflexivity.
+  - destruct (Nat.eqb_spec k' a) as [E1 | E1]; simpl.
+    + destruct (Nat.eqb_spec k' k) as [E2 | E2]; destruct (Nat.eqb_spec k a) as [E3 | E3];
+        try reflexivity; exfalso; congruence.
+    + rewrite IH.
+      destruct (Nat.eqb_spec k' k) as [E2 | E2]; destruct (Nat.eqb_spec k a) as [E3 | E3];
+        try reflexivity; try (exfalso; congruence).
+Qed.
+
+Lemma in_dict_get d k v : NoDup (keys d) -> In (k, v) d -> v = get d k.
+Proof.
+  induction d as [| [k' v'] r IH]; simpl; intros Hnd Hin; [contradiction |].
+  inversion Hnd as [| ? ? Hk' Hr]; subst.
+  destruct Hin as [Heq | Hin].
+  - injection Heq as -> ->. rewrite Nat.eqb_refl. reflexivity.
+  - destruct (Nat.eqb_spec k' k) as [-> | Hne].
+    + exfalso. apply Hk'. apply in_map_iff. exists (k, v). split; auto.
+    + apply IH; auto.
+Qed.
+
+Lemma get_in_dict d k : In k (keys d) -> In (k, get d k) d.
+Proof.
+  induction d as [| [k' v'] r IH]; simpl; intros Hin; [contradiction |].
+  destruct (Nat.eqb_spec k' k) as [-> | Hne].
+  - left. reflexivity.
+  - right. apply IH. destruct Hin as [H | H]; [congruence | exact H].
+Qed.
+
+Definition dict_ok (E : nat -> nat -> Prop) (d : list (nat * list nat)) : Prop :=
+  NoDup (keys d) /\
+  (forall k, NoDup (get d k)) /\
+  (forall k c, In c (get d k) <-> E k c) /\
+  (forall k, In k (keys d) <-> exists c, E k c).
+
+Lemma dict_ok_ext (E E' : nat -> nat -> Prop) d :
+  (forall k c, E k c <-> E' k c) -> dict_ok E d -> dict_ok E' d.
+Proof.
+  intros Hext [H1 [H2 [H3 H4]]]. split; [| split; [| split]]; auto.
+  - intros k c. rewrite H3. apply Hext.
+  - intros k. rewrite H4. split; intros [c Hc]; exists c; apply Hext; exact Hc.
+Qed.
+
+Lemma add_edge_dict_ok (E : nat -> nat -> Prop) d a b :
+  dict_ok E d -> dict_ok (fun k c => E k c \/ (k = a /\ c = b)) (add_edge d a b).
+Proof.
+  intros [H1 [H2 [H3 H4]]].
+  assert (Hkeys : forall k, In k (keys (add_edge d a b)) <-> In k (keys d) \/ k = a).
+  { intros k. rewrite keys_add_edge. destruct (mem a (keys d)) eqn:E1.
+    - apply mem_In in E1. split; [auto | intros [H | ->]; auto].
+    - rewrite in_app_iff. simpl. split; [intros [H | [H | []]]; auto | intros [H | ->]; auto]. }
+  split; [| split; [| split]].
+  - rewrite keys_add_edge. destruct (mem a (keys d)) eqn:E1; auto.
+    apply mem_false in E1. apply NoDup_app_disj; auto.
+    + constructor; [intros [] | constructor].
+    + intros y Hy [<- | []]. exact (E1 Hy).
+  - intros k. rewrite get_add_edge. destruct (Nat.eqb k a); auto. apply addv_NoDup. auto.
+  - intros k c. rewrite get_add_edge. destruct (Nat.eqb_spec k a) as [-> | Hne].
+    + rewrite addv_In, H3. split; intros [H | H]; auto. destruct H as [_ H]. auto.
+    + rewrite H3. split; [auto | intros [H | [H _]]; [auto | congruence]].
+  - intros k. rewrite Hkeys, H4. split.
+    + intros [[c Hc] | ->]; [exists c; auto | exists b; auto].
+    + intros [c [Hc | [-> _]]]; [left; exists c; auto | right; reflexivity].
+Qed.
+
+Section M2M.
+  Variable R : nat -> nat -> bool.
+
+  Definition EP (P : list (nat * nat)) (k c : nat) : Prop :=
+    (In (k, c) P /\ R k c = true) \/ (In (c, k) P /\ R c k = true).
+
+  Definition stepD (d : list (nat * list nat)) (ab : nat * nat) :=
+    if R (fst ab) (snd ab) then add_edge (add_edge d (fst ab) (snd ab)) (snd ab) (fst ab) else d.
+
+  Lemma m2m_ok P : dict_ok (EP P) (fold_left stepD P []).
+  Proof.
+    induction P as [| [a b] P IH] using rev_ind.
+    - simpl. split; [constructor | split; [constructor | split]].
+      + intros k c. simpl. split; [intros [] | intros [[[] _] | [[] _]]].
+      + intros k. simpl. split; [intros [] | intros [c [[[] _] | [[] _]]]].
+    - rewrite fold_left_app. simpl. unfold stepD at 1. simpl.
+      destruct (R a b) eqn:Rab.
+      + apply (add_edge_dict_ok _ _ a b) in IH. apply (add_edge_dict_ok _ _ b a) in IH.
+        eapply dict_ok_ext; [| exact IH].
+        intros k c. unfold EP. simpl. rewrite !in_app_iff. simpl. split.
+        * intros [[[[H1 H2] | [H1 H2]] | [-> ->]] | [-> ->]].
+          -- left. split; [left; exact H1 | exact H2].
+          -- right. split; [left; exact H1 | exact H2].
+          -- left. split; [right; left; reflexivity | exact Rab].
+          -- right. split; [right; left; reflexivity | exact Rab].
+        * intros [[[H | [H | []]] H2] | [[H | [H | []]] H2]].
+          -- left. left. left. split; assumption.
+          -- injection H as <- <-. left. right. split; reflexivity.
+          -- left. left. right. split; assumption.
+          -- injection H as <- <-. right. split; reflexivity.
+      + eapply dict_ok_ext; [| exact IH].
+        intros k c. unfold EP. rewrite !in_app_iff. simpl. split.
+        * intros [[H1 H2] | [H1 H2]]; [left | right]; (split; [left; exact H1 | exact H2]).
+        * intros [[[H | [H | []]] H2] | [[H | [H | []]] H2]].
+          -- left; split; assumption.
+          -- injection H as <- <-. congruence.
+          -- right; split; assumption.
+          -- injection H as <- <-. congruence.
+  Qed.
+
+  Lemma models2merge_ok ms : dict_ok (EP (combos ms)) (models2merge R ms).
+  Proof. apply m2m_ok. Qed.
+End M2M.
+
+(* combinations(ms, 2) = pairs in list order *)
+Lemma in_combos_split a b : forall ms,
+  In (a, b) (combos ms) <-> exists l1 l2 l3, ms = l1 ++ a :: l2 ++ b :: l3.
+Proof.
+  induction ms as [| x r IH]; simpl.
+  - split; [intros [] | intros [l1 [l2 [l3 H]]]; destruct l1; discriminate].
+  - rewrite in_app_iff, IH, in_map_iff. split.
+    + intros [[y [Hy1 Hy2]] | [l1 [l2 [l3 H]]]].
+      * injection Hy1 as <- <-. apply in_split in Hy2. destruct Hy2 as [l2 [l3 ->]].
+        exists [], l2, l3. reflexivity.
+      * exists (x :: l1), l2, l3. rewrite H. reflexivity.
+    + intros [[| y l1] [l2 [l3 H]]]; simpl in H; injection H as -> ->.
+      * left. exists b. split; auto. apply in_app_iff. right. left. reflexivity.
+      * right. exists l1, l2, l3. reflexivity.
+Qed.
+
+(* isolation of a position is decidable (finite search) *)
+Lemma isolated_dec G i g :
+  isolated G i g \/ exists j gj, nth_error G j = Some gj /\ j <> i /\ meets g gj.
+Proof.
+  destruct (existsb (fun jg : nat * list nat => negb (Nat.eqb (fst jg) i) && inter_nonempty g (snd jg)) (index G)) eqn:E.
+  - right. apply existsb_exists in E. destruct E as [[j gj] [Hin Hb]]. simpl in Hb.
+    apply andb_true_iff in Hb. destruct Hb as [Hb1 Hb2].
+    exists j, gj. split; [apply in_index; exact Hin | split].
+    + apply negb_true_iff in Hb1. apply Nat.eqb_neq in Hb1. exact Hb1.
+    + apply inter_meets. exact Hb2.
+  - left. intros j gj Hj Hne Hm.
+    assert (existsb (fun jg : nat * list nat => negb (Nat.eqb (fst jg) i) && inter_nonempty g (snd jg)) (index G) = true) as Hc.
+    { apply existsb_exists. exists (j, gj). split; [apply in_index; exact Hj |]. simpl.
+      apply andb_true_iff. split.
+      - apply negb_true_iff. apply Nat.eqb_neq. exact Hne.
+      - apply inter_meets. exact Hm. }
+    congruence.
+Qed.
+
+Lemma In_two_positions (G : list (list nat)) g1 g2 :
+  In g1 G -> In g2 G -> g1 <> g2 ->
+  exists i j, i <> j /\ nth_error G i = Some g1 /\ nth_error G j = Some g2.
+Proof.
+  intros H1 H2 Hne. apply In_nth_error in H1. apply In_nth_error in H2.
+  destruct H1 as [i Hi]. destruct H2 as [j Hj]. exists i, j. split; auto.
+  intros ->. congruence.
+Qed.
